@@ -54,7 +54,7 @@ def programs():
 
 
 FAULT_PROGRAMS = ["S+S", "W+S", "H", "P", "Sm", "Mw"]
-FAULTS = ["5xx", "429", "4xx", "token", "badresp-status", "badresp-noid", "badresp-type", "badresp-none"]
+FAULTS = ["5xx", "429", "4xx", "token", "4xx-tokenmsg", "403", "badresp-status", "badresp-noid", "badresp-type", "badresp-none"]
 
 
 def wellformed(out_v, o, inv, be_has_exec):
@@ -120,7 +120,7 @@ def judge(d, _=None):
             mro = inv["exc"]["mro"]
             allowed = bool(set(mro) & INVOCATION_FAMILY)
             if cls == "CheckpointError" and faults:
-                allowed = faults[0]["name"] == "4xx"   # only retriable checkpoint errors trigger a retry
+                allowed = faults[0]["name"] in ("4xx", "4xx-tokenmsg", "403")   # only retriable checkpoint errors trigger a retry
                 if faults[0]["name"].startswith("badresp"):
                     allowed = True   # an unparseable response: retry or FAILED are both defensible
                 if not allowed:
@@ -132,6 +132,15 @@ def judge(d, _=None):
         # expectations for the simple cases (no fault in this invocation)
         inv_family_case = m.get("kind") == "raise" and m["cls"] in ("InvocationError", "StepInterruptedError")
         if faults:
+            f0 = faults[0]
+            if "call" in f0 and not f0["name"].startswith("badresp") and f0["name"] != "blackhole":
+                want_raise = f0["name"] in ("4xx", "4xx-tokenmsg", "403")
+                o_ = inv.get("out") if inv["outcome"] == "returned" else None
+                st_ = o_.get("Status") if isinstance(o_, dict) else None
+                if want_raise and inv["outcome"] == "returned" and st_ == "FAILED":
+                    V(out, "C18", "retriable-checkpoint-error-not-raised",
+                      f"{tag}: checkpoint call {f0['call']} was rejected with a retriable error ({f0['name']}) but the wrapper "
+                      f"returned FAILED instead of raising for a Lambda retry", fault=f0["name"])
             continue
         if m.get("kind") == "suspend" or inv_family_case:
             if inv["n"] != 0:
@@ -276,7 +285,7 @@ def run(ctx):
     cov["bounds"] = ("handlers returning {None, dict, str, list, 0, NaN, tuple, object(), bytes}; raising 13 exception classes "
                      "(user and SDK) from top level, from a child context, from a parallel branch and from inside a step; "
                      "serialization failure; validation failure; uncaught failed step; suspension from 8 parking shapes; "
-                     "checkpoint faults {5xx, 429, 4xx, invalid token, four kinds of unparseable 200 responses} and get-state faults at every call position of 6 "
+                     "checkpoint faults {5xx, 429, 4xx, 403, invalid token, 4xx with the invalid-token message but another code, four kinds of unparseable 200 responses} and get-state faults at every call position of 6 "
                      "(quick) / 12 (thorough) programs combined with pagination modes, three policies; 16 malformed payloads")
     cov["explanation"] = "each trace is an invocation (or execution) through the production wrapper returned by durable_execution"
     return {"coverage": cov, "violations": viols, "internal": internal,
